@@ -356,7 +356,15 @@ class ServiceClass:
                     f"(Warning - {status[1]})"
                 )
                 self.dimse.send_msg(rsp, cx_id)
-                continue
+                # PS3.4, Annex C.6.4.4: only the Repository Query 0xB001
+                #   warning may be followed by further responses
+                if (
+                    req.AffectedSOPClassUID == "1.2.840.10008.5.1.4.1.1.201.6"
+                    and rsp.Status == 0xB001
+                ):
+                    continue
+
+                return
 
             if status[0] == STATUS_PENDING:
                 # If pending, `dataset` is the Identifier
